@@ -225,31 +225,6 @@ theorem settleIx_idempotent {s s' : Settle} {p q : Passed} {amt : Nat} (h : sett
 
 /-! ### Histories: charges, decreases and (repeated) settlements on one order -/
 
-inductive Op where
-  | inc (increment size factor pmin : Nat)
-  | dec (size factor pmin output : Nat)
-  | settle
-  deriving Repr
-
-/-- one step on `(recorded, escrow, vault)`; `U` fixed. A failed step leaves the state
-unchanged (the order is cancelled / the transaction reverts). On a decrease the final output
-amount lands in the order's escrow before the fee is recorded. -/
-def step (U : Nat) (s : Settle) : Op → Settle
-  | .inc increment size factor pmin =>
-    match increaseCharge U increment size factor pmin s.recorded with
-    | .ok (_, escrowIn, r) => { s with recorded := r, escrow := s.escrow + escrowIn }
-    | .error _ => s
-  | .dec size factor pmin output =>
-    match decreaseRecord U size factor pmin output s.recorded with
-    | .ok r => { s with recorded := r, escrow := s.escrow + output }
-    | .error _ => s
-  | .settle =>
-    match settle s with
-    | some (s', _) => s'
-    | none => s
-
-def run (U : Nat) (s : Settle) (ops : List Op) : Settle := ops.foldl (step U) s
-
 theorem step_preserves_backing (U : Nat) (s : Settle) (op : Op) (h : s.recorded ≤ s.escrow) :
     (step U s op).recorded ≤ (step U s op).escrow := by
   cases op with
